@@ -137,7 +137,11 @@ class Normaliser:
         if only_newtypes:
             # representation pre-pass: only the inherent methods of the transparent counters are dissolved (and the counters
             # flattened); everything else - in particular every function a role may be bound to - stays as it is
-            nts = set(self.newtypes)
+            # .. and of the *state records*: a private struct without Drop kept under a Mutex / RwLock of another type of the crate
+            # (`slots: Mutex<Slots<..>>`) is the representation of the state that lock protects; `slots.discard()` /
+            # `slots.within_limit()` / `slots.release_front()` are the field updates and tests they stand for, and the
+            # functions that hold the lock - the ones roles are bound to - are where they happen
+            nts = set(self.newtypes) | set(self.state_records)
             self.inlinable = {p: b for p, b in self.inlinable.items() if strip_generics(b.j.get('impl_self') or '').split('<')[0] in nts}
         # coroutine bodies of private async fns (keyed by the coroutine's own path = the callee of its poll)
         self.awaitable = {}
@@ -183,6 +187,27 @@ class Normaliser:
                         out[a_['path']] = fl[0]['ty']
             self._newtypes = out
         return self._newtypes
+
+    @property
+    def state_records(self):
+        if getattr(self, '_state_records', None) is None:
+            out = set()
+            for cn, c_ in self.prog.crates.items():
+                if cn not in self.crates:
+                    continue
+                drops = {strip_generics(i.get('self_ty', '')).split('<')[0] for i in c_.impls if i.get('trait') == 'std::ops::Drop'}
+                private = {a_['path'] for a_ in c_.adts if a_.get('kind') == 'Struct' and a_.get('vis') != 'pub' and a_['path'] not in drops}
+                for a_ in c_.adts:
+                    for v_ in a_.get('variants', []):
+                        for f_ in v_['fields']:
+                            ty_ = f_['ty']
+                            for lock_ in ('std::sync::Mutex<', 'std::sync::RwLock<'):
+                                if ty_.startswith(lock_):
+                                    inner_ = strip_generics(ty_[len(lock_):]).split('<')[0].rstrip('>')
+                                    if inner_ in private:
+                                        out.add(inner_)
+            self._state_records = out
+        return self._state_records
 
     @property
     def error_types(self):
@@ -310,6 +335,15 @@ class Normaliser:
                                             'trait': 'std::convert::From', 'rfn': p2, 'rfn_inst': p2, 'rk': 'item'}}
                             c = t['f']['k']; p = p2
                             inlined.append('into-as-from:' + p2)
+                    elif c.get('fn') == 'std::ops::FromResidual::from_residual' and len(c.get('targs', [])) == 2 and c['targs'][0].startswith('std::option::Option<') \
+                            and c['targs'][1].startswith('std::option::Option<') and t.get('t') is not None and t.get('dest'):
+                        # the failure value of an Option is `None`
+                        self.dissolved.add((strip_generics(p), t.get('line', 0)))
+                        bj['blocks'][x]['stmts'].append({'k': 'assign', 'p': copy.deepcopy(t['dest']), 'rv': {'k': 'agg', 'ak': 'adt', 'adt': 'std::option::Option', 'variant': 'None',
+                                                                                                            'fields': [], 'ops': [], 'from_residual': True}, 'line': t.get('line', 0)})
+                        bj['blocks'][x]['term'] = {'k': 'goto', 't': t['t'], 'line': t.get('line', 0)}
+                        inlined.append('desugar:option-residual'); changed = True
+                        continue
                     elif c.get('fn') == 'std::ops::FromResidual::from_residual' and self._desugar_converting_residual(bj, x):
                         self.dissolved.add((strip_generics(p), t.get('line', 0)))
                         inlined.append('desugar:converting-residual'); changed = True
@@ -944,6 +978,11 @@ class Normaliser:
         l = ap['l']; adt = None
         seen = set()
         work = [l]
+        aty_ = ap.get('ty') or bj['locals'][l]['ty']
+        if aty_.startswith('std::option::Option<'):
+            # `o?` on an Option is `match o { Some(v) => v, None => return None }` whatever `o` is: nothing is converted on the way
+            adt = 'std::option::Option'
+            work = []
         while work:
             y = work.pop()
             if y in seen:
@@ -1689,7 +1728,7 @@ def devirtualise_boxed_futures(prog):
 def normalise(prog, crates, keep=(), only_newtypes=False):
     """replace every body of the given crates by its inlined view and drop absorbed helpers; returns the Normaliser"""
     nz = Normaliser(prog, crates, keep, only_newtypes=only_newtypes)
-    if only_newtypes and not nz.newtypes:
+    if only_newtypes and not nz.newtypes and not nz.inlinable:
         return nz
     if nz.newtypes:
         for cn, c_ in prog.crates.items():
